@@ -17,6 +17,36 @@ func init() {
 	gens["c04-ms"] = c04Ms
 	gens["c04-product"] = c04Product
 	gens["c04-errors"] = c04Errors
+	gens["c04-bodybytes"] = c04BodyBytes
+}
+
+// c04BodyBytes: every byte value (and every pair of "interesting" bytes) inside the
+// body: RawData / raw_msg must be exactly the trimmed text after msg=, and
+// ParseLogLine must agree with Parse, whatever bytes the body holds.
+func c04BodyBytes(c *enumx.Ctx) {
+	for b := 0; b < 256; b++ {
+		for _, shape := range []string{" a=%sb", " %s", " key=\"x%sy\" z=1", ":%s: a=b", " a=b%s"} {
+			if !c.Mine() {
+				continue
+			}
+			body := fmt.Sprintf(shape, string([]byte{byte(b)}))
+			checkSuccess(c, header{"SYSCALL", 1300, "1700000000", "123", "42", body})
+		}
+	}
+	var special []byte
+	for b := 0; b < 0x21; b++ {
+		special = append(special, byte(b))
+	}
+	special = append(special, 0x7f, 0x80, 0x85, 0xa0, 0xc2, 0xe2, 0xff, '\\', '"', '\'', '=', ')', '(', ':')
+	for _, x := range special {
+		for _, y := range special {
+			if !c.Mine() {
+				continue
+			}
+			checkSuccess(c, header{"USER_LOGIN", 1112, "1", "000", "7", " a=" + string([]byte{x}) + "m" + string([]byte{y}) + " b=c"})
+		}
+	}
+	c.Sample("type=SYSCALL msg=audit(1700000000.123:42): a=\\x1db => RawData keeps the byte")
 }
 
 // header is the independent description of a written header.
